@@ -229,6 +229,16 @@ def make_resource(op, i, asgi):
 def build_app(case, asgi, dirs, model, after_op=None):
     cls = falcon.asgi.App if asgi else falcon.App
     app = cls(sink_before_static_route=case['sbs'])
+    if case.get('reraise'):
+        # an application-level handler that observes HTTP errors (logging, metrics) and raises them again: the 404 /
+        # 405 / Allow answers must come out the same
+        if asgi:
+            async def observe(req, resp, ex, params):
+                raise ex
+        else:
+            def observe(req, resp, ex, params):
+                raise ex
+        app.add_error_handler(falcon.HTTPError, observe)
     nstatic = 0
     for i, op in enumerate(case['ops']):
         if after_op is not None and i > 0:
@@ -361,6 +371,8 @@ def run_case(case, dirs):
     labels.add('sink_before_static=%s' % case['sbs'])
     if any(o.get('falsy') for o in case['ops']):
         labels.add('falsy_resource')
+    if case.get('reraise'):
+        labels.add('http_errors_observed_and_reraised')
     for pi, method in case['reqs']:
         path = PATHS[pi]
         exp = model.dispatch(method, path)
@@ -534,7 +546,8 @@ def _apps(draw):
             ops = list(ops) + [dict(draw(st.sampled_from(dup)))]
             if draw(st.booleans()):
                 inter = sorted(set(inter) | {len(ops) - 2})
-    return {'sbs': draw(st.booleans()), 'ops': list(ops), 'reqs': [list(r) for r in reqs], 'interleave': inter}
+    return {'sbs': draw(st.booleans()), 'ops': list(ops), 'reqs': [list(r) for r in reqs], 'interleave': inter,
+            'reraise': draw(st.integers(0, 4)) == 0}
 
 
 class Apps(_Base):
@@ -578,6 +591,8 @@ class Subsets(_Base):
                 yield {'sbs': True, 'ops': [{'k': 'sink', 'p': 0}, route], 'reqs': reqs}
                 if bits % 9 == 0:
                     yield {'sbs': True, 'ops': [{'k': 'sink', 'p': 0}, dict(route, falsy=True)], 'reqs': reqs}
+                if bits % 7 == 3:
+                    yield {'sbs': True, 'ops': [{'k': 'sink', 'p': 0}, route], 'reqs': reqs, 'reraise': True}
 
 
 SUITES = [Apps(), Subsets()]
